@@ -438,7 +438,7 @@ static std::string step(const Toks& t0)
 		replaceSlot(k, new Var);
 		return "ok";
 	}
-	if (op == "ctor" && n >= 4) {
+	if (op == "ctor" && n >= 3) {
 		int k = (int)num(t[1]);
 		if (k < 0 || k >= NS) return "bad-op";
 		const std::string& c = t[2];
@@ -446,6 +446,73 @@ static std::string step(const Toks& t0)
 			bool tok; Var::Type ty = typeOf(t[3], tok);
 			if (!tok || ty == Var::NUMBER || ty == Var::BOOL || ty == Var::INT || ty == Var::FLOAT) return tok ? "badarg" : "bad-op";
 			replaceSlot(k, new Var(ty));
+			return "ok";
+		}
+		if ((c == "arr" || c == "list") && n >= 4) {
+			// Var(const Array<T>&) / Var(std::initializer_list<T>): kinds i (int), s (String), d (double m:e)
+			const std::string& kind = t[3];
+			size_t m = n - 4;
+			if (kind != "i" && kind != "s" && kind != "d") return "bad-op";
+			if (c == "list" && (kind == "s" || m < 1 || m > 4)) return "bad-op";
+			std::vector<double> dv;
+			if (kind == "d") {
+				for (size_t i = 4; i < n; i++) {
+					size_t cpos = t[i].find(':');
+					if (cpos == std::string::npos) return "bad-op";
+					dv.push_back(ldexp((double)num(t[i].substr(0, cpos)), -(int)num(t[i].substr(cpos + 1))));
+				}
+			}
+			if (c == "arr") {
+				if (kind == "i") { Array<int> a; for (size_t i = 4; i < n; i++) a << (int)num(t[i]); replaceSlot(k, new Var(a)); }
+				else if (kind == "s") { Array<String> a; for (size_t i = 4; i < n; i++) a << S(unhex(t[i])); replaceSlot(k, new Var(a)); }
+				else { Array<double> a; for (size_t i = 0; i < dv.size(); i++) a << dv[i]; replaceSlot(k, new Var(a)); }
+				return "ok";
+			}
+			if (kind == "i") {
+				int x[4] = { 0, 0, 0, 0 };
+				for (size_t i = 0; i < m; i++) x[i] = (int)num(t[4 + i]);
+				Var* v = m == 1 ? new Var{ x[0] } : m == 2 ? new Var{ x[0], x[1] } : m == 3 ? new Var{ x[0], x[1], x[2] } : new Var{ x[0], x[1], x[2], x[3] };
+				replaceSlot(k, v);
+			}
+			else {
+				double x[4] = { 0, 0, 0, 0 };
+				for (size_t i = 0; i < m; i++) x[i] = dv[i];
+				Var* v = m == 1 ? new Var{ x[0] } : m == 2 ? new Var{ x[0], x[1] } : m == 3 ? new Var{ x[0], x[1], x[2] } : new Var{ x[0], x[1], x[2], x[3] };
+				replaceSlot(k, v);
+			}
+			return "ok";
+		}
+		if (c == "dic" && n >= 4) {
+			// Var(const Dic<T>&): kinds i (int), s (String); entries hexkey=value
+			const std::string& kind = t[3];
+			if (kind != "i" && kind != "s") return "bad-op";
+			for (size_t i = 4; i < n; i++) if (t[i].find('=') == std::string::npos) return "bad-op";
+			if (kind == "i") {
+				Dic<int> d;
+				for (size_t i = 4; i < n; i++) { size_t e = t[i].find('='); d[S(unhex(t[i].substr(0, e)))] = (int)num(t[i].substr(e + 1)); }
+				replaceSlot(k, new Var(d));
+			}
+			else {
+				Dic<String> d;
+				for (size_t i = 4; i < n; i++) { size_t e = t[i].find('='); d[S(unhex(t[i].substr(0, e)))] = S(unhex(t[i].substr(e + 1))); }
+				replaceSlot(k, new Var(d));
+			}
+			return "ok";
+		}
+		if (c == "varr" && n >= 3 && n <= 7) {
+			// Var::array({q1, q2, ..}) with up to 4 elements
+			const Var* e[4] = { NULL, NULL, NULL, NULL };
+			size_t m = n - 3;
+			for (size_t i = 0; i < m; i++) { Path q = parsePath(t[3 + i]); if (!q.ok) return "bad-op"; }
+			for (size_t i = 0; i < m; i++) {
+				Path q = parsePath(t[3 + i]);
+				std::string err;
+				e[i] = resolveConst(q, err);
+				if (!e[i]) return err;
+			}
+			Var* v = m == 0 ? new Var(Var::array({})) : m == 1 ? new Var(Var::array({ *e[0] })) : m == 2 ? new Var(Var::array({ *e[0], *e[1] }))
+				: m == 3 ? new Var(Var::array({ *e[0], *e[1], *e[2] })) : new Var(Var::array({ *e[0], *e[1], *e[2], *e[3] }));
+			replaceSlot(k, v);
 			return "ok";
 		}
 		if (c == "kv" && n == 5) {
